@@ -100,11 +100,43 @@ func (r *Run) global(g *ssa.Global) *value {
 	panic(engineErr{"global without storage: " + g.String()})
 }
 
+// Packages outside the repository under test keep their initialised globals
+// for the life of the process (their state is read-only after init: tables,
+// sentinel errors); only Workiva/frugal packages are re-initialised per run.
+var sharedGlobals = map[*ssa.Global]*value{}
+var sharedInit = map[*ssa.Package]bool{}
+
+func shareable(pkg *ssa.Package) bool {
+	return !strings.HasPrefix(pkg.Pkg.Path(), "github.com/Workiva/frugal")
+}
+
 func (r *Run) initPackage(pkg *ssa.Package) {
 	if r.pkgInit[pkg] {
 		return
 	}
 	r.pkgInit[pkg] = true
+	if shareable(pkg) {
+		if sharedInit[pkg] {
+			for _, m := range pkg.Members {
+				if g, ok := m.(*ssa.Global); ok {
+					r.globals[g] = sharedGlobals[g]
+				}
+			}
+			return
+		}
+		defer func() {
+			if recover() != nil {
+				panic(engineErr{"panic while initialising package " + pkg.Pkg.Path()})
+			}
+			// only a completed initialisation is shared
+			sharedInit[pkg] = true
+			for _, m := range pkg.Members {
+				if g, ok := m.(*ssa.Global); ok {
+					sharedGlobals[g] = r.globals[g]
+				}
+			}
+		}()
+	}
 	for _, m := range pkg.Members {
 		if g, ok := m.(*ssa.Global); ok {
 			cell := zero(mustDeref(g.Type()))
